@@ -185,7 +185,7 @@ pub fn run(ctx: &Ctx) -> i32 {
         rep.inconclusive.push(format!("identifier harvest is implausibly small: {:?}", pool));
         return rep.finish();
     }
-    let n = ctx.scale(4000, 12000);
+    let n = ctx.scale(6000, 12000);
     let trees = check::draw(ctx.seed, 0xC19, n, 540);
     let mut cases: Vec<(usize, Case)> = Vec::new();
     for (i, t) in trees.iter().enumerate() {
